@@ -27,21 +27,28 @@ from ..lib.impl import Raised, call  # noqa: E402
 LEVEL = "proof"
 CLAIM = dict(
     category="proof",
-    text="DarsiaProps.C14 (all inputs, exact rationals): clip bounds/idempotence, scaling/linear affine (the isclose shortcut "
-    "deviates by <= 1.001e-5|x|), CombinedModel = sequential composition, parameter routing for 'all' and for every list of "
-    "(position, dofs) entries (each addressed sub-model receives exactly the next slice of the flat vector, in order), "
-    "heterogeneous = homogeneous per label, thresholding = strictly between bounds inside the mask, the polynomial exponent "
-    "enumeration is a bijection onto {(i,j) | i+j <= d} for all d (tied to the code for d <= 8 by tabulation); KernelInterpolation as a "
-    "state machine (kernel in force, np.unique sort/de-duplication of supports with re-indexed values, cached inverse, update / "
-    "update_kernel / update_model_parameters(values)): for ALL update sequences the cached inverse and the weights belong to the "
-    "current kernel, supports and values, hence reproduction at the current supports whenever the current kernel matrix is "
-    "invertible (any field, abstract kernel). The model is tied to the classes by an exact "
-    "differential correspondence on dyadic inputs incl. error classes and by G1 tables of the dof dispatch.",
-    note="the kernel state machine is tied by a correspondence on random op sequences (discrete state exactly; interpolation_weights "
-    "against inv(K(key)) @ values for the key the model predicts); partial for kernel interpolation: exp, np.linalg.inv, float32 and the numba kernels are only observed (reproduction "
-    "1e-4, numba vs plain sum 1e-5), on fresh objects and along update sequences on one object (same-count new supports, "
-    "value-only updates, changed count, AdvancedKernelInterpolation) with equality to a fresh object after every step; every "
-    "updatable parameter is also set to exactly 0 through every route; cv2.resize of label maps of another shape is outside the model.",
+    text="DarsiaProps.C14 over exact rationals, all inputs. Theorems with content: clip bounds / idempotence; scaling / linear affine, the "
+    "isclose shortcut as an explicit guard |s-1| <= 1e-8+1e-5 with a theorem on either side; CombinedModel = sequential composition; "
+    "parameter routing for 'all' and every list of (position, dofs) entries as global consecutive slices (routing_all, "
+    "routing_subset_slices); the label LOOP over np.unique(labels) with mask assignment as coded - HeterogeneousLinearModel, "
+    "label-wise StaticThresholdModel incl. the mask / return_float tail, the HeterogeneousModel wrapper - proved equal to the "
+    "per-label homogeneous model / the clause 'strictly between the bounds inside the mask' (hetero_loop_eq_homog_on_label, "
+    "threshold_ops_eq_clause, wrapper_loop_eq_model); the label map in force after any call sequence = nearest-neighbour resize of the "
+    "ORIGINAL labels for OpenCV's index rule (exact floor, one below at tabulated double-rounding breakpoints); poly_span for all d; "
+    "KernelInterpolation as a state machine: for ALL update sequences cached inverse and weights belong to the current kernel / "
+    "supports / values, hence reproduction at the current supports when the current kernel matrix is invertible (abstract kernel, any "
+    "field); the accumulation loop of linear_combination = plain kernel sum for every kernel function and the three signal shapes. "
+    "Definitional (unfold the pointwise model, kept as clause forms): hetero_eq_homog_on_label, threshold_strict, threshold_hetero, "
+    "wrapper_eq_model_on_label, hetero_result_type; routing_one / routing_subset restate the class dispatch restricted to one slice. "
+    "Tie: exact differential correspondence of the OPERATIONAL models on dyadic inputs for float64, float32, uint8, uint16 and int64 "
+    "signals (values and element type of the result), error classes, update sequences; G1 tables (dof dispatch, exponents d <= 8, "
+    "cv2 rounding points n,N <= 64, index maps <= 16); LinearKernel numba / plain loop exactly on dyadic float32.",
+    note="OBSERVED ONLY: exp (GaussianKernel), np.linalg.inv, float32 rounding and fastmath on non-dyadic data (reproduction 1e-4, numba vs "
+    "plain sum 1e-5, on fresh objects and along update sequences incl. AdvancedKernelInterpolation); the kernel state machine's weights "
+    "are compared with inv(K(key)) @ values for the key the model predicts (1e-6 cond). Not modelled: 3-D label volumes; Image inputs "
+    "other than for ClipModel (behaviour recorded in the evidence); states after an exception; cv2 index rule beyond n,N = 64 (theorems "
+    "hold for any rounding table of the stated form, the tie stops at 64). Known finding: KernelInterpolation.update_model_parameters "
+    "with the kernel dof / default dofs.",
     technique="Lean 4 proof + G1 tabulation + differential correspondence + property oracle",
 )
 
@@ -112,19 +119,43 @@ def tok_upd(upd):
     return (f"sub {len(dofs)} " + " ".join(f"{p} {tok_spec(s)}" for p, s in dofs) + f" {len(ps)} {fmts(ps)}").strip()
 
 
-class Case:
-    """models + optional update + signal (pixels with label index)"""
+NP_OF = {"f64": np.float64, "f32": np.float32, "u8": np.uint8, "u16": np.uint16, "i64": np.int64}
+TOK_OF_NP = {"float64": "f64", "float32": "f32", "uint8": "u8", "uint16": "u16", "int64": "i64", "bool": "bool"}
+INT_DTYPES = ("u8", "u16", "i64")
 
-    def __init__(self, mode, models, upd, pix, label_values, shape):
+
+def dtok(arr):
+    return TOK_OF_NP.get(str(np.asarray(arr).dtype), "?" + str(np.asarray(arr).dtype))
+
+
+def gen_value(rng, dt):
+    """a signal value representable in the element type (integers for integer images, small dyadics otherwise)"""
+    if dt == "u8":
+        return Fraction(rng.choice([rng.randint(0, 255), rng.randint(0, 12), 201, 255]))
+    if dt == "u16":
+        return Fraction(rng.choice([rng.randint(0, 1000), rng.randint(0, 12), 65535]))
+    if dt == "i64":
+        return Fraction(rng.randint(-40, 300))
+    return dy(rng, -32, 32, 16)
+
+
+class Case:
+    """models + optional update + signal (pixels with the index of their label; the request line carries label VALUES and the
+    element type, the response the element type of the result and its values)"""
+
+    def __init__(self, mode, models, upd, pix, label_values, shape, dtype="f64", channels=1):
         self.mode, self.models, self.upd, self.pix, self.label_values, self.shape = mode, models, upd, pix, label_values, shape
+        self.dtype = dtype
+        self.channels = channels  # > 1: signal of shape (H, W, C) with a 2-D label map; pix lists the C values of a pixel consecutively
 
     def line(self):
-        return (f"run {self.mode} {len(self.models)} " + " ".join(tok_model(m) for m in self.models) + " | " + tok_upd(self.upd)
-                + f" | {len(self.pix)} " + " ".join(f"{l} {fmt(v)}" for l, v in self.pix))
+        return (f"run {self.mode} {self.dtype} {len(self.models)} " + " ".join(tok_model(m) for m in self.models) + " | " + tok_upd(self.upd)
+                + f" | {len(self.pix)} " + " ".join(f"{self.label_values[l] if l < len(self.label_values) else l} {fmt(v)}" for l, v in self.pix))
 
     def arrays(self):
-        lab = np.array([self.label_values[l] for l, _ in self.pix], dtype=np.int64).reshape(self.shape)
-        sig = np.array([float(v) for _, v in self.pix], dtype=float).reshape(self.shape)
+        lab = np.array([self.label_values[l] for l, _ in self.pix[:: self.channels]], dtype=np.int64).reshape(self.shape)
+        full = tuple(self.shape) + ((self.channels,) if self.channels > 1 else ())
+        sig = np.array([float(v) for _, v in self.pix], dtype=float).reshape(full).astype(NP_OF[self.dtype])
         return lab, sig
 
     def run_impl(self, d):
@@ -147,7 +178,7 @@ class Case:
         out = np.asarray(out)
         if out.shape != sig.shape:
             return "!shape"
-        return fmts(out.ravel())
+        return dtok(out) + " " + fmts(out.ravel())
 
 
 def gen_models(rng, n, L, near_one=True):
@@ -170,6 +201,11 @@ def gen_models(rng, n, L, near_one=True):
     return ms
 
 
+def f32_safe(rng, models):
+    """float32 (24 mantissa bits): keep every parameter a small dyadic so that two models in a row stay exact"""
+    return [("scaling", dy(rng)) if m[0] == "scaling" and m[1].denominator > 16 else m for m in models]
+
+
 def n_params(m):
     return {"clip": 2, "scaling": 1, "linear": 2}.get(m[0]) or 2 * m[1]
 
@@ -188,14 +224,18 @@ def gen_case(rng, malformed=False):
     labs = list(range(L)) + [rng.randrange(L) for _ in range(npx - L)]
     rng.shuffle(labs)
     label_values = sorted(rng.sample(range(0, 40), L))
-    pix = [(l, dy(rng, -32, 32, 16)) for l in labs]
+    dtype = rng.choice(["f64", "f64", "f32", "u8", "u16", "i64"])
+    pix = [(l, gen_value(rng, dtype)) for l in labs]
     mode = rng.choice(["comb", "comb", "comb", "single"])
-    models = gen_models(rng, 1 if mode == "single" else rng.randint(1, 4), L)
+    # float32 has 24 mantissa bits: at most two models in a row keep every intermediate value exact
+    models = gen_models(rng, 1 if mode == "single" else rng.randint(1, 2 if dtype == "f32" else 4), L)
+    if dtype == "f32":
+        models = f32_safe(rng, models)
     if not any(m[0] == "het" for m in models) and rng.random() < 0.6:
         # label-free models take signals of any dimensionality: 1-D pixel lists and 3-D arrays
         shape = rng.choice([(rng.randint(1, 7),), (rng.randint(1, 3), rng.randint(1, 3), rng.randint(1, 3))])
         npx = int(np.prod(shape))
-        pix = [(0, dy(rng, -32, 32, 16)) for _ in range(npx)]
+        pix = [(0, gen_value(rng, dtype)) for _ in range(npx)]
         label_values = [0]
     choice = rng.random()
     upd = None
@@ -232,7 +272,11 @@ def gen_case(rng, malformed=False):
         if malformed and rng.random() < 0.5:
             need, extra = max(0, need - 1), 0
         upd = ("sub", entries, [dz(rng) for _ in range(need + extra)])
-    return Case(mode, models, upd, pix, label_values, shape)
+    channels = 1
+    if any(m[0] == "het" for m in models) and rng.random() < 0.3:
+        channels = rng.choice([2, 3])  # (H, W, C) signal, 2-D labels: the mask of a label selects all channels of its pixels
+        pix = [(l, gen_value(rng, dtype)) for l, _ in pix for _ in range(channels)]
+    return Case(mode, models, upd, pix, label_values, shape, dtype, channels)
 
 
 # ---------------------------------------------------------------------------
@@ -248,12 +292,13 @@ def gen_thr(rng, d):
     labs = list(range(L)) + [rng.randrange(L) for _ in range(npx - L)]
     rng.shuffle(labs)
     label_values = sorted(rng.sample(range(0, 40), L))
-    vals = [dy(rng, -8, 24, 16) for _ in range(npx)]
+    sdt = rng.choice(["f64", "f64", "f32", "u8", "i64"])
+    vals = [dy(rng, -8, 24, 16) if sdt in ("f64", "f32") else Fraction(rng.randint(0, 3)) for _ in range(npx)]
     mask = None if rng.random() < 0.4 else [rng.random() < 0.6 for _ in range(npx)]
     het = rng.random() < 0.6
     as_float = rng.random() < 0.4  # return_float may change the dtype, never the selection - with or without a mask
     lab = np.array([label_values[l] for l in labs]).reshape(shape)
-    sig = np.array([float(v) for v in vals]).reshape(shape)
+    sig = np.array([float(v) for v in vals]).reshape(shape).astype(NP_OF[sdt])
     if het:
         lo = [dy(rng, 0, 8, 16) for _ in range(L)]
         # include bounds equal to pixel values so strictness is exercised
@@ -261,15 +306,15 @@ def gen_thr(rng, d):
             if rng.random() < 0.4:
                 lo[i] = rng.choice(vals)
         hi = None if rng.random() < 0.3 else [rng.choice([l + dy(rng, 0, 16, 16), rng.choice(vals)]) for l in lo]
-        line = f"thr het {L} {fmts(lo)} " + ("none" if hi is None else "some " + fmts(hi))
+        line = f"thr het {L} {fmts(lo)} " + ("none" if hi is None else "some " + fmts(hi)) + (" 1" if as_float else " 0")
         model = call(d.StaticThresholdModel, [float(x) for x in lo], None if hi is None else [float(x) for x in hi], lab, as_float)
     else:
         lo = rng.choice([dy(rng, 0, 8, 16), rng.choice(vals)])
         hi = rng.choice([None, lo + dy(rng, 0, 16, 16), rng.choice(vals)])
-        line = f"thr hom {fmt(lo)} {'none' if hi is None else fmt(hi)}"
+        line = f"thr hom {fmt(lo)} {'none' if hi is None else fmt(hi)} {1 if as_float else 0}"
         model = call(d.StaticThresholdModel, float(lo), None if hi is None else float(hi), None, as_float)
     line += " | " + ("nomask" if mask is None else "mask " + " ".join("1" if b else "0" for b in mask))
-    line += f" | {npx} " + " ".join(f"{l} {fmt(v)}" for l, v in zip(labs, vals))
+    line += f" | {npx} " + " ".join(f"{label_values[l]} {fmt(v)}" for l, v in zip(labs, vals))
     if isinstance(model, Raised):
         return line, repr(model), dict(lo=lo, hi=hi, het=het)
     out = call(model, sig) if mask is None else call(model, sig, np.array(mask).reshape(shape))
@@ -280,7 +325,7 @@ def gen_thr(rng, d):
         if out.dtype.kind not in "fbiu" or not np.all((out == 0) | (out == 1)):
             impl = "!values"
         else:
-            impl = "!shape" if out.shape != shape else " ".join("1" if b else "0" for b in out.ravel())
+            impl = "!shape" if out.shape != shape else dtok(out) + " " + " ".join("1" if b else "0" for b in out.ravel())
     # the statement itself, evaluated directly
     want = []
     for i, (l, v) in enumerate(zip(labs, vals)):
@@ -347,7 +392,8 @@ def tabulate_dispatch(d):
     return tab, subsets
 
 
-NEAR_MAX = 10
+NEAR_MAX = 16   # full index maps (Lean cross-check table)
+NEAR_DEV_MAX = 64   # rounding points tabulated for all sizes up to this
 
 
 def tabulate_nearest():
@@ -364,7 +410,31 @@ def tabulate_nearest():
     return tab
 
 
-def emit(poly, sizes, disp, subsets, near=()):
+def tabulate_near_dev(ctx=None):
+    """rounding points (n, N, x) where cv2's index is the exact floor(x n / N) minus one; everything else must be the exact index"""
+    import cv2
+
+    dev, bad = [], []
+    for n in range(1, NEAR_DEV_MAX + 1):
+        a = np.arange(n, dtype=np.int32)
+        for N in range(1, NEAR_DEV_MAX + 1):
+            cols = call(lambda: cv2.resize(a.reshape(1, n), (N, 1), interpolation=cv2.INTER_NEAREST)[0].tolist())
+            rows = call(lambda: cv2.resize(a.reshape(n, 1), (1, N), interpolation=cv2.INTER_NEAREST)[:, 0].tolist())
+            if isinstance(cols, Raised) or isinstance(rows, Raised) or cols != rows:
+                bad.append((n, N, "rows != cols / raises"))
+                continue
+            for x, got in enumerate(cols):
+                ex = min(x * n // N, n - 1)
+                if got == ex - 1:
+                    dev.append((n, N, x))
+                elif got != ex:
+                    bad.append((n, N, x, got, ex))
+    if bad and ctx is not None:
+        ctx.mark("TIE-BROKEN", {"cv2_nearest": "index map is neither the exact floor nor one below it", "first": list(map(str, bad[:3])), "n": len(bad)})
+    return dev
+
+
+def emit(poly, sizes, disp, subsets, near=(), dev=()):
     L = ["import DarsiaModel.SignalModels", "namespace Darsia.Gen", "open Darsia Darsia.Sig", ""]
     L.append(f"def polyDegrees : List Nat := [{', '.join(str(k) for k in sorted(poly))}]")
     L.append("/-- exponents of basis function k of PolynomialApproximationSpace(d), decoded from basis((2,3), k); `none`: undecodable -/")
@@ -397,7 +467,9 @@ def emit(poly, sizes, disp, subsets, near=()):
     L += ["", "/-- (n, N, source index per destination index along columns, along rows) of cv2.resize INTER_NEAREST -/",
           "def nearTable : List (Nat × Nat × List Nat × List Nat) := ["]
     L.append(",\n".join(f"  ({n}, {N}, {c}, {r})" for n, N, c, r in near))
-    L += ["]", "", "end Darsia.Gen"]
+    L += ["]", "", f"/-- rounding points (n, N, x) of cv2.resize INTER_NEAREST for all n, N <= {NEAR_DEV_MAX}: index = exact floor(x n / N) - 1 there -/",
+          "def nearDev : Dev := [" + ", ".join(f"({n}, {N}, {x})" for n, N, x in dev) + "]"]
+    L += ["", "end Darsia.Gen"]
     return "\n".join(L) + "\n"
 
 
@@ -450,9 +522,10 @@ def oracle_models(ctx, d):
     rng = ctx.rng
     probe_vals = [Fraction(k, 4) for k in range(-12, 13)]
 
-    def mk_case(models, upd, L):
+    def mk_case(models, upd, L, dtype="f64"):
         labs = [i % L for i in range(len(probe_vals))]
-        return Case("comb", models, upd, list(zip(labs, probe_vals)), [5 * (i + 1) for i in range(L)], (5, 5))
+        vals = probe_vals if dtype in ("f64", "f32") else [Fraction(v) for v in (list(range(0, 22)) + [100, 201, 255])]
+        return Case("comb", models, upd, list(zip(labs, vals)), [5 * (i + 1) for i in range(L)], (5, 5), dtype)
 
     # (a) clip bounds / idempotence / Image in -> Image out, argument untouched
     for _ in range(ctx.pick(20, 200)):
@@ -488,10 +561,13 @@ def oracle_models(ctx, d):
     for _ in range(ctx.pick(30, 300)):
         L = rng.randint(1, 5)
         models = gen_models(rng, rng.randint(1, 4), L, near_one=False)
-        c = mk_case(models, None, L)
+        cdt = rng.choice(["f64", "f64", "f32", "u8", "u16", "i64"])
+        if cdt == "f32":
+            models = f32_safe(rng, models[:2])  # exact in 24 mantissa bits
+        c = mk_case(models, None, L, cdt)
         lab, sig = c.arrays()
         objs = [call(build, d, m, lab) for m in models]
-        ctx.count(("compose", tuple(map(str, models))))
+        ctx.count(("compose", c.dtype, tuple(map(str, models))))
         if any(isinstance(o, Raised) for o in objs):
             ctx.fail("C14:model-constructor:raises", "a model cannot be constructed", {"models": [tok_model(m) for m in models]})
             continue
@@ -510,7 +586,34 @@ def oracle_models(ctx, d):
             ctx.fail("C14:CombinedModel.__call__:composition", "combined model differs from applying its parts in order", {"line": c.line()})
         want = np.array([float(v) for v in ref_apply(models, c.pix)]).reshape(c.shape)
         if not np.array_equal(np.asarray(seq), want):
-            ctx.fail("C14:models:defining-formula", "model output differs from its defining formula (label-wise = homogeneous per label)", {"line": c.line()})
+            ctx.fail(f"C14:models:defining-formula(dtype={c.dtype})", "model output differs from its defining formula (label-wise = homogeneous per label)",
+                     {"line": c.line(), "observed": np.asarray(seq).ravel().tolist()[:8], "required": want.ravel().tolist()[:8]})
+
+    # (e-dtype) label-wise linear model vs the real homogeneous LinearModel of each label, region by region, for every element type
+    for dt in ("u8", "u16", "i64", "f32", "f64"):
+        for _ in range(ctx.pick(4, 30)):
+            L = rng.randint(1, 4)
+            sc, of = [dy(rng) for _ in range(L)], [dy(rng) for _ in range(L)]
+            c = mk_case([("het", L, sc, of)], None, L, dt)
+            lab, sig = c.arrays()
+            ctx.count(("het-vs-hom", dt, tuple(sc), tuple(of)))
+            out = call(lambda: d.HeterogeneousLinearModel(lab, scaling=[float(x) for x in sc], offset=[float(x) for x in of])(sig.copy()))
+            bad = None
+            if isinstance(out, Raised):
+                bad = {"observed": repr(out)}
+            else:
+                for li, l in enumerate(np.unique(lab)):
+                    hom = d.LinearModel(scaling=float(sc[li]), offset=float(of[li]))(sig.copy())
+                    reg = lab == l
+                    if not np.array_equal(np.asarray(out)[reg], hom[reg]):
+                        k = np.argwhere(reg & (np.asarray(out) != hom))[0]
+                        bad = {"label": int(l), "pixel": k.tolist(), "signal_value": float(sig[tuple(k)]), "observed": float(np.asarray(out)[tuple(k)]),
+                               "required": float(hom[tuple(k)]), "result_dtype": str(np.asarray(out).dtype), "homogeneous_dtype": str(hom.dtype)}
+                        break
+            if bad:
+                ctx.fail(f"C14:HeterogeneousLinearModel.__call__(dtype={dt}):differs-from-homogeneous",
+                         "on a labelled region the label-wise model differs from LinearModel(scaling[l], offset[l]) (result truncated / wrapped into the signal's element type)",
+                         {"line": c.line(), **bad})
 
     # (e') the generic label-wise wrapper HeterogeneousModel(model, label image): per-label copies, region by region
     for _ in range(ctx.pick(10, 100)):
@@ -588,7 +691,8 @@ def oracle_models(ctx, d):
 def oracle_threshold(ctx, d, thr_cases):
     for line, impl, info in thr_cases:
         ctx.count(("thr", line))
-        if "want" in info and impl != info["want"]:
+        sel = impl if impl.startswith("!") else impl.split(" ", 1)[1] if " " in impl else ""
+        if "want" in info and sel != info["want"]:
             opt = ",return_float" if info.get("return_float") else ""
             opt += ",mask" if info.get("masked") else ""
             ctx.fail(f"C14:StaticThresholdModel.__call__({'het' if info['het'] else 'hom'}{opt})", "result is not `strictly between the bounds, inside the mask`",
@@ -986,7 +1090,8 @@ def oracle_kernel_parameters(ctx, d):
         r = call(ki.update_model_parameters, p_) if dofs is None else call(ki.update_model_parameters, p_, dofs)
         out = r if isinstance(r, Raised) else call(ki, S.astype(np.float32))
         if isinstance(out, Raised):
-            ctx.fail("C14:KernelInterpolation.update_model_parameters(kernel dof):unusable",
+            stage = "update" if isinstance(r, Raised) else "call-after-update"
+            ctx.fail(f"C14:KernelInterpolation.update_model_parameters(dofs={dofs!r}):{stage}:{type(out.exc).__name__}",
                      f"update_model_parameters(p, dofs={dofs!r}) raises or leaves an object that cannot be evaluated: {out!r}",
                      {"dofs": dofs, "observed": repr(out), "exception": str(getattr(out, 'exc', ''))[:120]})
 
@@ -1023,10 +1128,11 @@ def wrapper_resize_boundary(ctx, d):
         labs = list(range(L)) + [rng.randrange(L) for _ in range(npx - L)]
         rng.shuffle(labs)
         label_values = sorted(rng.sample(range(0, 40), L))
-        pix = [(l, dy(rng, -32, 32, 16)) for l in labs]
-        lines.append(f"wrap {L} " + " ".join(tok_model(m) for m in models) + f" | {npx} " + " ".join(f"{l} {fmt(v)}" for l, v in pix))
+        wdt = rng.choice(["f64", "f32", "u8", "i64"])
+        pix = [(l, gen_value(rng, wdt)) for l in labs]
+        lines.append(f"wrap {L} " + " ".join(tok_model(m) for m in models) + f" | {npx} " + " ".join(f"{label_values[l]} {fmt(v)}" for l, v in pix))
         lab = np.array([label_values[l] for l in labs]).reshape(shape)
-        sig = np.array([float(v) for _, v in pix]).reshape(shape)
+        sig = np.array([float(v) for _, v in pix]).reshape(shape).astype(NP_OF[wdt])
         hm = call(d.HeterogeneousModel, d.LinearModel(), d.Image(lab, dimensions=[1.0, 1.0], scalar=True))
         if isinstance(hm, Raised):
             impl.append(repr(hm))
@@ -1034,7 +1140,7 @@ def wrapper_resize_boundary(ctx, d):
         for i, l in enumerate(np.unique(lab)):
             hm.obj[l] = build(d, models[i], lab)
         out = call(hm, sig.copy())
-        impl.append(repr(out) if isinstance(out, Raised) else ("!shape" if np.asarray(out).shape != shape else fmts(np.asarray(out).ravel())))
+        impl.append(repr(out) if isinstance(out, Raised) else ("!shape" if np.asarray(out).shape != shape else dtok(out) + " " + fmts(np.asarray(out).ravel())))
     ctx.correspond("heterogeneous-wrapper", lines, impl)
 
     # (2) label maps of another shape: the label map in force is read off the output (scaling = position of the label + 2, signal = 1)
@@ -1043,6 +1149,10 @@ def wrapper_resize_boundary(ctx, d):
         h, w, H, W = (rng.randint(1, NEAR_MAX) for _ in range(4))
         if t % 5 == 0:
             H, W = h, w
+        elif t % 5 == 1:  # sizes where OpenCV's double arithmetic rounds below the exact index
+            (h, H), (w, W) = rng.choice([(14, 18), (6, 34), (7, 14), (28, 36)]), (rng.randint(1, 40), rng.randint(1, 40))
+        elif t % 5 == 2:
+            h, w, H, W = (rng.randint(1, NEAR_DEV_MAX) for _ in range(4))
         L = rng.randint(1, 4)
         label_values = sorted(rng.sample(range(0, 40), L))
         lab = np.array([rng.choice(label_values) for _ in range(h * w)], dtype=rng.choice([np.uint8, np.int32, np.int64])).reshape(h, w)
@@ -1150,6 +1260,63 @@ def oracle_label_sequences(ctx, d):
         if bad:
             ctx.fail("C14:HeterogeneousLinearModel.__call__:call-sequence", f"call {bad['step']} of a sequence on one instance: {bad['what']}",
                      {"label_sequence": {"labels": lab, "shapes": [list(s_) for s_ in shapes], "scaling": [str(x) for x in sc], "offset": [str(x) for x in of]}, **bad})
+
+
+def linear_kernel_correspondence(ctx, d):
+    """LinearKernel.linear_combination (numba, float32) and BaseKernel.linear_combination (plain numpy) against the model's loop,
+    EXACTLY: supports / signals multiples of 1/4 in [0,3], weights multiples of 1/16, shift a multiple of 1/4 - every product and
+    partial sum fits into 24 mantissa bits, so float32 arithmetic (also reassociated by fastmath) is exact."""
+    rng = ctx.rng
+    lines, impl_fast, impl_plain = [], [], []
+    for t in range(ctx.pick(24, 200)):
+        a = Fraction(rng.randint(0, 8), 4)
+        n = rng.randint(1, 4)
+        ws = [Fraction(rng.randint(-16, 16), 16) for _ in range(n)]
+        ss = [[Fraction(rng.randint(0, 12), 4) for _ in range(3)] for _ in range(n)]
+        kind = ("p", "l", "g")[t % 3]
+        if kind == "p":
+            shape, head = (3,), "p"
+        elif kind == "l":
+            N = rng.randint(1, 5)
+            shape, head = (N, 3), f"l {N}"
+        else:
+            H, W = rng.randint(1, 3), rng.randint(1, 3)
+            shape, head = (H, W, 3), f"g {H} {W}"
+        vals = [Fraction(rng.randint(0, 12), 4) for _ in range(int(np.prod(shape)))]
+        lines.append(f"lincomb {fmt(a)} {n} " + " ".join(fmt(w) + " " + fmts(s_) for w, s_ in zip(ws, ss)) + f" | {head} " + fmts(vals))
+        kern = d.LinearKernel(float(a))
+        sig32 = np.array([float(v) for v in vals], dtype=np.float32).reshape(shape)
+        S32 = np.array([[float(c) for c in s_] for s_ in ss], dtype=np.float32)
+        w32 = np.array([float(w) for w in ws], dtype=np.float32)
+        fast = call(kern.linear_combination, sig32, S32, w32)
+        plain = call(d.BaseKernel.linear_combination, kern, sig32.astype(float), S32.astype(float), w32.astype(float))
+        for out, dest in ((fast, impl_fast), (plain, impl_plain)):
+            dest.append(repr(out) if isinstance(out, Raised) else ("!shape" if np.asarray(out).shape != shape[:-1] else fmts(np.asarray(out, dtype=float).ravel())))
+    ctx.correspond("linear-kernel-numba-loop", lines, impl_fast)
+    ctx.correspond("linear-kernel-plain-loop", lines, impl_plain)
+
+
+def observe_image_inputs(ctx, d):
+    """darsia.Image inputs: only ClipModel documents them. What every class does with an Image is recorded (not counted as passing)."""
+    img = d.Image(np.arange(6.0).reshape(2, 3), dimensions=[1.0, 1.0], scalar=True)
+    lab = np.array([[1, 1, 2], [2, 3, 3]])
+    arr = np.arange(6.0).reshape(2, 3)
+    objs = {"ClipModel": (d.ClipModel(**{"min value": 1.0, "max value": 3.0}), np.clip(arr, 1, 3)),
+            "ScalingModel": (d.ScalingModel(scaling=2.0), 2 * arr), "LinearModel": (d.LinearModel(scaling=2.0, offset=1.0), 2 * arr + 1),
+            "HeterogeneousLinearModel": (d.HeterogeneousLinearModel(lab, scaling=[1.0, 2.0, 3.0], offset=[0.0, 0.0, 0.0]), None),
+            "CombinedModel": (d.CombinedModel([d.ClipModel(**{"min value": 1.0, "max value": 3.0}), d.LinearModel(scaling=2.0, offset=1.0)]), 2 * np.clip(arr, 1, 3) + 1),
+            "StaticThresholdModel": (d.StaticThresholdModel(1.0, 3.0), (arr > 1) & (arr < 3))}
+    rep = {}
+    for name, (m, want) in objs.items():
+        out = call(m, img.copy())
+        if isinstance(out, Raised):
+            rep[name] = f"raises {out!r} (signature takes np.ndarray)"
+        elif hasattr(out, "img") and want is not None and np.array_equal(np.asarray(out.img), want):
+            rep[name] = "Image in -> Image out, values as for the array"
+        else:
+            rep[name] = "returns " + type(out).__name__ + (" with OTHER values than for the array" if want is not None else "")
+    ctx.cov["image_inputs_observed"] = rep
+    ctx.notes.append("Image inputs are in the API of ClipModel only (checked by the oracle); for the other classes the behaviour is recorded under image_inputs_observed, not asserted")
 
 
 def oracle_kernel(ctx, d):
@@ -1278,16 +1445,19 @@ def replay(data):
         return 1 if bad else 0
     if "line" in rp and rp["line"].startswith("run "):
         toks = rp["line"].split()
-        mode, n = toks[1], int(toks[2])
-        models, rest = _parse_models(toks[3:])
+        mode, dt = toks[1], toks[2]
+        models, rest = _parse_models(toks[4:])
         bar2 = len(rest) - 1 - rest[::-1].index("|")
         pt = rest[bar2 + 2:]
         pix = [(int(pt[i]), Fraction(pt[i + 1])) for i in range(0, len(pt), 2)]
         L = max([m[1] for m in models if m[0] == "het"] + [max(l for l, _ in pix) + 1])
         side = int(round(len(pix) ** 0.5))
         shape = (side, side) if side * side == len(pix) else (1, len(pix))
-        c = Case(mode, models, None, pix, [5 * (i + 1) for i in range(L)], shape)
+        vals_ = sorted({l for l, _ in pix})
+        pix = [(vals_.index(l), v) for l, v in pix]
+        c = Case(mode, models, None, pix, vals_, shape, dt)
         got = c.run_impl(d)
+        got = got if got.startswith("!") else got.split(" ", 1)[1]
         want = fmts(ref_apply(models, pix))
         print(json.dumps({"line": rp["line"], "note": "models applied without the update part", "observed": got, "required": want,
                           "still_failing": got != want}, indent=1))
@@ -1302,7 +1472,9 @@ def run(ctx):
     poly, sizes = tabulate_poly(d)
     disp, subsets = tabulate_dispatch(d)
     near = tabulate_nearest()
-    ctx.write_gen("SignalTables", emit(poly, sizes, disp, subsets, near))
+    dev = tabulate_near_dev(ctx)
+    ctx.cov["cv2_nearest"] = {"rounding_points": len(dev), "sizes_up_to": NEAR_DEV_MAX, "rule": "index = floor(x n / N) except one below at these exact breakpoints"}
+    ctx.write_gen("SignalTables", emit(poly, sizes, disp, subsets, near, dev))
     ctx.cov["generated_tables"] = {"poly_degrees": len(poly), "dispatch_entries": len(disp)}
     ctx.prove("C14")
 
@@ -1319,9 +1491,10 @@ def run(ctx):
         # is the *property* violated at this case? evaluate the defining formulas directly
         if c.upd is None and not impl[i].startswith("!"):
             want = fmts(ref_apply(c.models, c.pix))
+            got_vals = impl[i].split(" ", 1)[1] if " " in impl[i] else ""
             # the isclose shortcut of ScalingModel is an implementation detail: scaling * x is as right as x
-            if want != impl[i] and fmts(ref_apply(c.models, c.pix, shortcut=False)) != impl[i]:
-                ctx.fail("C14:models:defining-formula", "model output differs from its defining formula", {"line": lines[i], "observed": impl[i], "required": want})
+            if want != got_vals and fmts(ref_apply(c.models, c.pix, shortcut=False)) != got_vals:
+                ctx.fail(f"C14:models:defining-formula(dtype={c.dtype})", "model output differs from its defining formula", {"line": lines[i], "observed": impl[i], "required": want})
     thr = [gen_thr(ctx.rng, d) for _ in range(ctx.pick(120, 1200))]
     ctx.correspond("static-threshold", [t[0] for t in thr], [t[1] for t in thr])
     pl = [f"poly {k}" for k in range(POLY_MAX + 1)]
@@ -1336,10 +1509,12 @@ def run(ctx):
     oracle_models(ctx, d)
     oracle_threshold(ctx, d, thr)
     oracle_zero_updates(ctx, d)
+    observe_image_inputs(ctx, d)
     oracle_label_sequences(ctx, d)
     oracle_kernel(ctx, d)
     oracle_kernel_sequences(ctx, d)
     kernel_state_correspondence(ctx, d)
+    linear_kernel_correspondence(ctx, d)
     oracle_kernel_parameters(ctx, d)
     ctx.cov["rule"] = ("distinct = distinct request lines / (clause, parameters); dyadic stream only (exact comparison); "
                        ">= 85 % of routing cases valid for the API, the rest checks error classes")
@@ -1347,6 +1522,10 @@ def run(ctx):
         "np.clip / numpy broadcasting / boolean mask assignment semantics (tied by the exact correspondence on dyadic inputs)",
         "np.isclose default tolerances 1e-8 + 1e-5 (ScalingModel shortcut); inputs stay away from the threshold",
         "kernel interpolation: exp, np.linalg.inv, float32 casts and numba kernels are observed with tolerances, not modelled",
+        "states after an exception are outside the theorems (hypothesis: the sequence does not raise): e.g. KernelInterpolation.update(values=<wrong length>) "
+        "overwrites self.values before the matrix product raises, leaving values and interpolation_weights inconsistent (a C16-style question, not checked here)",
+        "label-wise thresholding and the HeterogeneousModel wrapper accept 2-D signals only (a (H,W,C) signal raises a broadcasting error); "
+        "HeterogeneousLinearModel takes (H,W) and (H,W,C) signals with 2-D labels (both in the tie)",
     ]
     import shutil
 
